@@ -702,6 +702,12 @@ func (peer *peer) handleUpdate(e *fsmMsg) ([]*table.Path, []bgp.Family, bool) {
 
 				if hasOwnASLoop(localAS, allowOwnAS, aspath, confedID, confedEnabled) {
 					path.SetRejected(true)
+					// The rejected route still replaces whatever this peer
+					// advertised before for the prefix (implicit withdraw),
+					// so the earlier route must leave the Loc-RIB.
+					if !path.IsWithdraw {
+						paths = append(paths, path.Clone(true))
+					}
 					continue
 				}
 			}
@@ -719,6 +725,9 @@ func (peer *peer) handleUpdate(e *fsmMsg) ([]*table.Path, []bgp.Family, bool) {
 						slog.String("Data", path.String()))
 
 					path.SetRejected(true)
+					if !path.IsWithdraw {
+						paths = append(paths, path.Clone(true))
+					}
 					continue
 				}
 			}
